@@ -241,6 +241,16 @@ def cases_for(H, rng):
     return cs
 
 
+def float_twin(H):
+    """the same hypergraph with every integer edge id handed over as the equal float"""
+    import xgi
+    T = xgi.Hypergraph()
+    T.add_nodes_from((n, dict(H.nodes[n])) for n in H.nodes)
+    T.add_edges_from((list(H.edges.members(e)), float(e) if type(e) is int else e, dict(H.edges[e])) for e in H.edges)
+    T._net_attr.update(H._net_attr)
+    return T
+
+
 def run(v):
     import xgi
     proof = base.proof_stage(v, PROP)
@@ -283,6 +293,28 @@ def run(v):
                     ncases += 1
             except G.Unsupported:
                 pass
+    # source hypergraphs whose explicit integer edge ids arrived as numpy integers / whole floats (what pandas or a cast on
+    # reading produces): as dict keys they are the same ids, and every conversion must treat them so
+    hgsim.PRESENT = random.Random(C.seed() * 31 + 10)
+    try:
+        recs_f = HC.gen_histories(hgsim, max(40, n // 3), 9, C.seed() + 177, malformed_share=0.0)
+    finally:
+        hgsim.PRESENT = None
+    kinds["Hypergraph with integer ids presented as numpy integers / whole floats"] = len(recs_f)
+    twins = [dict(r, net=float_twin(r["net"]), twin=True) for r in all_recs[:max(40, n // 3)] if isinstance(r["net"], xgi.Hypergraph)
+             and r["net"].num_edges]
+    for r in recs_f + twins:
+        if r["obs"] and r["obs"][-1].get("broken"):
+            continue
+        try:
+            with warnings.catch_warnings():
+                warnings.simplefilter("ignore")
+                d = oracle(r["net"], rng)
+        except Exception as e:  # noqa: BLE001
+            d = f"oracle raised {type(e).__name__}: {e}"
+        if d:
+            failures.append((f"{PROP}:intlike:{d[:70]}", {"what": d + " (explicit integer ids presented as numpy integers / whole floats)",
+                                                          "class": "Hypergraph", "history": HC.jsonable(r["ops"]), "presentation": "float-twin" if r.get("twin") else "intlike"}))
     cdir = C.cases_dir(PROP)
     files = {}
     for k in range(0, len(terms), 40):
@@ -327,7 +359,19 @@ def replay(payload):
     d = payload.get("detail", payload)
     ops = HC.unjson(d["history"])
     sim = {"Hypergraph": hgsim, "DiHypergraph": disim, "SimplicialComplex": scsim}[d.get("class", "Hypergraph")]
-    r = sim.run_history(ops)
-    dsc = oracle(r["net"], random.Random(0))
-    print("oracle:", dsc or "holds")
+    pres = d.get("presentation")
+    if pres == "intlike":
+        for k in range(12):
+            hgsim.PRESENT = random.Random(k)
+            try:
+                r = sim.run_history(ops)
+            finally:
+                hgsim.PRESENT = None
+            dsc = oracle(r["net"], random.Random(0))
+            if dsc:
+                break
+    else:
+        r = sim.run_history(ops)
+        dsc = oracle(float_twin(r["net"]) if pres == "float-twin" else r["net"], random.Random(0))
+    print("oracle:", dsc or "holds", f"({pres})" if pres else "")
     return 1 if dsc else 0
